@@ -251,6 +251,24 @@ def _work_clock_ident(task) -> core.Part:
     return p
 
 
+def _work_lengths(task) -> core.Part:
+    """Any number of leading zeros / long values: element lengths swept far beyond the nominal 32+16 characters."""
+    ns, = task
+    p = core.Part()
+    for n in ns:
+        for num, unit in (("896.020", "kWh"), ("230.1", "V"), ("7", None)):
+            v = "0" * n + num
+            ls = [[("0-0:1.0.0", [("210222161900W", None)])], [("1-0:1.8.0", [(v, unit)])], [("1-0:32.7.0", [(v, "V")]), ("0-0:96.1.1", [("4" * (n + 1), None)])]]
+            e = check_block(ls)
+            p.add("evaluations")
+            p.add("nontrivial")
+            if e:
+                _rep(p, "length", ls, e)
+                if p.full("length"):
+                    return p
+    return p
+
+
 def bind() -> int:
     """The exact parser must agree with the expectations written in tests/test_dlde.py for its captured examples."""
     import tests.test_dlde as td
@@ -279,10 +297,12 @@ def main(run: core.Run) -> int:
     cd = KNOWN_CDE + ["9.7.0", "96.14.0", "0.2.8", "99.97.0", "24.2.1"]
     run.merge(par.pmap(_work_addr, [(cd[i::8],) for i in range(8)], seed=run.seed))
     run.merge(par.pmap(_work_clock_ident, [0], seed=run.seed))
+    lens = list(range(0, 131)) + [255, 256, 257, 1000, 4000]
+    run.merge(par.pmap(_work_lengths, [(lens[i::16],) for i in range(16)], seed=run.seed))
     tot = run.total
     tot.sample({"block": "1-0:1.7.0(0001.320*kW)\r\n", "expected": {"active_power_import": "1320 (int, within [1319, 1320])"}})
     tot.sample({"block": "0-1:24.2.1(180924130000S)(04890.857*m3)\r\n", "expected": "parsed as one data set with two values; absent from the decoded dictionary"})
-    run.bounds = {"integer_parts": ints, "fraction_digits": "0..3 (complete)", "known_codes": len(KNOWN_CDE)}
+    run.bounds = {"integer_parts": ints, "fraction_digits": "0..3 (complete)", "leading_zeros_and_value_lengths": "0..130, 255..257, 1000, 4000", "known_codes": len(KNOWN_CDE)}
     run.assumptions = ["exact reference parser / name table in mc/ref (Fraction arithmetic)", "addresses always carry group E (C.D.E); reduced addresses without E are not generated"]
     ev = tot.c.get("evaluations", 0)
     return run.finish(states=tot.c.get("nontrivial", 0), transitions=ev, traces=ev, evaluations=ev, distinct_nontrivial=tot.c.get("nontrivial", 0))
